@@ -403,6 +403,11 @@ func init() {
 	// status reports through the remote client, compared with in-process ones
 	addPlan("C18", planEntry{Engine: "A", Scenario: "member", Quick: 6, Thorough: 60})
 	addPlan("C18", planEntry{Engine: "A", Scenario: "general", Quick: 4, Thorough: 40})
+	addPlan("C07", planEntry{Engine: "A", Scenario: "uncommitted-term-leader", Params: "qw=6", Quick: 6, Thorough: 60})
+	addPlan("C12", planEntry{Engine: "A", Scenario: "install-then-own-snapshot", Params: "seg=1024", Quick: 6, Thorough: 60})
+	addPlan("C02", planEntry{Engine: "A", Scenario: "grown-cluster", Quick: 6, Thorough: 60})
+	addPlan("C06", planEntry{Engine: "A", Scenario: "grown-cluster", Quick: 4, Thorough: 40})
+	addPlan("C08", planEntry{Engine: "A", Scenario: "grown-cluster", Quick: 4, Thorough: 40})
 	// timers with the semantics of a main module below go 1.23 (see worker main)
 	addPlan("C15", planEntry{Engine: "A", Scenario: "general", Params: "oldtimers=1", Quick: 6, Thorough: 60})
 	addPlan("C15", planEntry{Engine: "A", Scenario: "election", Params: "oldtimers=1", Quick: 6, Thorough: 60})
